@@ -209,6 +209,8 @@ impl<T> OptionParser<T> {
         let args = args.into();
         let mut err = None;
         let mut state = State::construct(args, &short_flags, &short_args, &mut err);
+        #[cfg(bpaf_verif)]
+        state.verif_check("construct");
 
         // this only handles disambiguation failure in construct
         if let Some(msg) = err {
@@ -273,6 +275,12 @@ impl<T> OptionParser<T> {
                 if let Some((ix, _)) = args.items_iter().next() {
                     Message::Unconsumed(ix)
                 } else {
+                    #[cfg(bpaf_verif)]
+                    crate::verif::record(crate::verif::Event::Accept {
+                        depth: args.depth(),
+                        scope: (args.scope().start, args.scope().end),
+                        ledger: args.verif_ledger(),
+                    });
                     return Ok(ok);
                 }
             }
